@@ -33,7 +33,9 @@ def hang_result(obs, prop_is_liveness=False):
         'violations': [],
         'stats': {'hang_' + str(obs.hang): 1},
         'summary': {'hang': obs.hang, 'what': getattr(obs, 'hang_what', None),
-                    'stacks': obs.stacks, 'tail': [trim(e) for e in obs.events[-25:]] if hasattr(obs, 'events') else None},
+                    'stacks': obs.stacks, 'tail': [trim(e) for e in obs.events[-25:]] if hasattr(obs, 'events') else None,
+                    # exceptions that escaped a task of a stage (e.g. a hand-over refused by a full stage)
+                    'escaped': [trim(e) for e in obs.events if e.get('kind') == 'exec.finish' and e.get('escaped')][:5] if hasattr(obs, 'events') else []},
         'fatal': True,
     }
 
